@@ -118,6 +118,10 @@ func c09BuildErr(e []int) error {
 		return &kmipserver.Error{Reason: kmip.ResultReason(e[1]), Message: "typed pointer"}
 	case 3:
 		return fmt.Errorf("wrapped: %w", c09BuildErr(e[1:]))
+	case 5:
+		return context.DeadlineExceeded
+	case 6:
+		return context.Canceled
 	default:
 		return errors.New("plain")
 	}
@@ -152,11 +156,26 @@ func c09EncOut(o c09Out) []int64 {
 	}
 }
 
+// c09NormErr is the error as the model sees it: the context errors (kinds 5, 6) are errors of no
+// particular type to the library - plain errors.
 func c09NormErr(e []int) []int {
 	if len(e) == 0 {
 		return []int{4}
 	}
-	return e
+	o := make([]int, 0, len(e))
+	for i := 0; i < len(e); i++ {
+		switch e[i] {
+		case 3:
+			o = append(o, 3)
+			continue
+		case 1, 2:
+			return append(o, e[i:]...)
+		case 5, 6:
+			return append(o, 4)
+		}
+		return append(o, e[i:]...)
+	}
+	return append(o, 4)
 }
 
 func c09Payload(rp int) kmip.OperationPayload {
@@ -236,11 +255,11 @@ func (r *c09Runner) handler() kmipserver.OperationHandler {
 		case 1:
 			return c09Payload(sc.Out.RP), nil
 		case 2:
-			return c09Payload(sc.Out.RP), c09BuildErr(c09NormErr(sc.Out.E))
+			return c09Payload(sc.Out.RP), c09BuildErr(sc.Out.E)
 		default:
 			switch sc.Out.PV {
 			case 1:
-				panic(c09BuildErr(c09NormErr(sc.Out.E)))
+				panic(c09BuildErr(sc.Out.E))
 			case 2:
 				panic("handler panic (string)")
 			case 3:
@@ -901,11 +920,13 @@ func c09RandErr(r *h.Rand) []int {
 	for r.Chance(1, 3) && len(e) < 3 {
 		e = append(e, 3)
 	}
-	switch r.Intn(4) {
+	switch r.Intn(5) {
 	case 0, 1:
 		e = append(e, 1, reasons[r.Intn(len(reasons))])
 	case 2:
 		e = append(e, 2, reasons[r.Intn(len(reasons))])
+	case 3:
+		e = append(e, 5+r.Intn(2)) // a context error (deadline exceeded / canceled), bare or wrapped
 	default:
 		e = append(e, 4)
 	}
